@@ -314,7 +314,7 @@ func slice(i *interpreter, x, lo, hi, max value) value {
 
 // lookup returns x[idx] where x is a map.
 func lookup(i *interpreter, instr *ssa.Lookup, x, idx value) value {
-	idx = i.mapKey(idx)
+	idx = i.mapKeyIn(x, idx)
 	switch x := x.(type) { // map or string
 	case map[value]value, *hashmap:
 		var v value
